@@ -4,8 +4,6 @@ use std::sync::atomic::{AtomicU64, Ordering};
 
 extern "C" {
     fn diplomat_is_str(ptr: *const u8, size: usize) -> bool;
-    fn diplomat_alloc(size: usize, align: usize) -> *mut u8;
-    fn diplomat_free(ptr: *mut u8, size: usize, align: usize);
 }
 
 // ------------------------------------------------------------------------------------------
@@ -521,30 +519,6 @@ pub fn views(maxlen: usize) -> ViewResult {
     }
     r.cases += 1;
     r.distinct += 1;
-    // --- diplomat_alloc / diplomat_free
-    for size in 1..=64usize {
-        for align in [1usize, 2, 4, 8] {
-            unsafe {
-                let p = diplomat_alloc(size, align);
-                if p.is_null() || (p as usize) % align != 0 {
-                    fail(format!("diplomat_alloc({size},{align}) returned {:p}", p));
-                } else {
-                    for i in 0..size {
-                        *p.add(i) = i as u8;
-                    }
-                    for i in 0..size {
-                        if *p.add(i) != i as u8 {
-                            fail(format!("diplomat_alloc({size},{align}) memory not writable"));
-                        }
-                    }
-                    diplomat_free(p, size, align);
-                }
-            }
-            r.cases += 1;
-            r.distinct += 1;
-        }
-    }
     r.samples.push(format!("str views over {:?}", strs));
-    r.samples.push("diplomat_alloc/free for size 1..=64 x align {1,2,4,8}".into());
     r
 }
